@@ -925,3 +925,60 @@ pub fn v_prhist(shp: &[u8], shx: &[u8], rows: usize, ops: &[(String, usize)]) ->
         Err(e) => format!("panic {}", panic_msg(&e)),
     }
 }
+
+/// C10 through the BATCH entry point of the complete writer: a writer typed by `n_good` good pairs,
+/// then `write_shapes_and_records` with `n_batch` pairs of another shape type — refused with the
+/// mismatch, and the three files are those of the good pairs alone (no attribute row of the batch)
+pub fn oracle_batch_rejected(base: &str, n_good: usize, n_batch: usize) -> Verdict {
+    let good: Vec<PairOp> = (0..n_good).map(|_| PairOp::Good).collect();
+    let want = match run_pairs(base, &good) {
+        Ok(r) => r,
+        Err(e) => return Verdict::fail("batch-rejected-panic", e),
+    };
+    let (shp, shx, dbf) = (LogDst::new(), LogDst::new(), LogDst::new());
+    let (s2, x2, d2) = (shp.clone(), shx.clone(), dbf.clone());
+    let b = base.to_string();
+    let r = catch_unwind(AssertUnwindSafe(move || -> Result<(), String> {
+        let table = dbase::TableWriterBuilder::new()
+            .add_numeric_field("idx".try_into().unwrap(), 10, 0)
+            .add_character_field("name".try_into().unwrap(), 10)
+            .build_with_dest(d2);
+        let mut w = Writer::new(ShapeWriter::with_shx(s2, x2), table);
+        for q in 0..n_good {
+            let shape = shape_for(&b, q);
+            let row = row_for(PairOp::Good, q);
+            crate::with_any!(&shape, s => w.write_shape_and_record(s, &row)).map_err(|e| format!("good pair {} refused: {}", q, show_err(&e)))?;
+        }
+        let others: Vec<Any> = (0..n_batch).map(|k| other_shape(&b, n_good + k)).collect();
+        let rows: Vec<dbase::Record> = (0..n_batch).map(|k| row_for(PairOp::Good, n_good + k)).collect();
+        let res = match &others[0] {
+            Any::Point(_) => {
+                let v: Vec<Point> = others.iter().map(|a| if let Any::Point(p) = a { p.clone() } else { unreachable!() }).collect();
+                w.write_shapes_and_records(v.iter().zip(rows.iter()))
+            }
+            Any::Polyline(_) => {
+                let v: Vec<Polyline> = others.iter().map(|a| if let Any::Polyline(p) = a { p.clone() } else { unreachable!() }).collect();
+                w.write_shapes_and_records(v.iter().zip(rows.iter()))
+            }
+            _ => return Err("unexpected other shape".into()),
+        };
+        match res {
+            Err(Error::MismatchShapeType { .. }) => Ok(()),
+            Err(e) => Err(format!("the batch of another type failed with {} instead of the type mismatch", show_err(&e))),
+            Ok(()) => Err("the batch of another type was accepted".into()),
+        }
+    }));
+    match r {
+        Err(e) => return Verdict::fail("batch-rejected-panic", panic_msg(&e)),
+        Ok(Err(e)) => return Verdict::fail("batch-rejected", e),
+        Ok(Ok(())) => {}
+    }
+    let got = PairRun { results: vec![], shp: shp.data(), shx: shx.data(), dbf: dbf.data() };
+    if got.shp != want.shp || got.shx != want.shx {
+        return Verdict::fail("batch-rejected", format!("{} good pairs then a refused batch of {}: .shp/.shx differ from the good pairs alone", n_good, n_batch));
+    }
+    if got.dbf != want.dbf {
+        return Verdict::fail("batch-rejected", format!("{} good pairs then a refused batch of {}: the .dbf has {} bytes / {} rows, the good pairs alone give {} bytes / {} rows", n_good, n_batch, got.dbf.len(), counts(&got).2, want.dbf.len(), counts(&want).2));
+    }
+    Verdict::pass()
+}
